@@ -9,11 +9,12 @@ B = dict(crate="ohkami", strength="bounded", timeout=1200)
 def desc(shape):
     b = lambda n: (shape >> n) & 1 == 1
     return (("wildcard origin" if b(0) else "explicit origin") + (", credentials requested" if b(1) else "") + (", expose-headers" if b(2) else "") +
-            (", max-age" if b(3) else "") + (", configured allow-headers" if b(4) else "") + (", OPTIONS request" if b(5) else ", GET request") +
+            (f", max-age {[600, 0, 1, 4294967295][(shape // 128 + shape // 64) % 4]}" if b(3) else "") + (", configured allow-headers" if b(4) else "") + (", OPTIONS request" if b(5) else ", GET request") +
             (", with Access-Control-Request-Headers (3 symbolic bytes)" if b(6) else "") + ", inner status " + ["200", "501", "404", "400"][shape // 128])
-# quick: 16 shapes chosen so that every bit takes both values with OPTIONS and with GET, and every inner status occurs under OPTIONS
+# quick: 18 shapes chosen so that every bit takes both values with OPTIONS and with GET, and every inner status occurs under OPTIONS
 QUICK = {0b0100000 + 128, 0b1100000 + 128, 0b0111111 + 128, 0b1101110 + 128, 0b0100010 + 384, 0b0100001 + 256, 0b1110100 + 0, 0b0101011 + 128,
-         0b0000000 + 0, 0b0000011 + 0, 0b0011110 + 256, 0b1011101 + 384, 0b0000110 + 128, 0b1000001 + 0, 0b0010010 + 384, 0b0001100 + 256}
+         0b0000000 + 0, 0b0000011 + 0, 0b0011110 + 256, 0b1011101 + 384, 0b0000110 + 128, 0b1000001 + 0, 0b0010010 + 384, 0b0001100 + 256,
+         104, 296}   # 104 / 296: OPTIONS with max-age 0 / 1 (boundary values)
 HARNESSES = [H(f"c14_cors_bite_contract_k{k:02d}", tier="quick" if k in QUICK else "thorough",
                functions=["<CORSProc<Inner> as FangProc>::bite", "CORS::new", "CORS::AllowCredentials", "CORS::ExposeHeaders", "CORS::AllowHeaders", "CORS::MaxAge", "<CORS as Fang>::chain"],
                clauses=["every response: Access-Control-Allow-Origin == configured origin; Allow-Credentials: true iff enabled on a non-wildcard origin; configured Expose-Headers",
